@@ -153,6 +153,12 @@ func faults() []fault {
 			out = append(out, decl{"amb = '%%'"})
 			return out, len(out) - 1, true
 		}},
+		{"ambiguous-alias-three-modes", func(ds []decl) ([]decl, int, bool) {
+			i := lastLexerDecl(ds)
+			out := insertAfter(ds, i, "AMB1 = '%%' @push_mode(AmbM1)\n@mode AmbM1 {\n  AMB2 = '%%' @push_mode(AmbM2)\n}\n@mode AmbM2 {\n  AMB3 = '%%' @pop_mode\n}")
+			out = append(out, decl{"amb = '%%'"})
+			return out, len(out) - 1, true
+		}},
 		{"list-element-not-simple", func(ds []decl) ([]decl, int, bool) {
 			out := append(append([]decl{}, ds...), decl{"le = @list(s*, s)"})
 			return out, len(out) - 1, true
